@@ -10,7 +10,7 @@ if os.path.exists(rt):
         if len(f)>=3: res.setdefault(f[0],[]).append({'check':f[1],'result':f[2],'witness':f[3] if len(f)>3 else ''})
 for d in sorted(os.listdir(root)):
     p=os.path.join(root,d)
-    if not os.path.isdir(p): continue
+    if not os.path.isdir(p) or not re.match(r'^C\d+-\d+$', d): continue
     notes=open(os.path.join(p,'notes.md')).read() if os.path.exists(os.path.join(p,'notes.md')) else ''
     conf=open(os.path.join(p,'confirm.txt')).read() if os.path.exists(os.path.join(p,'confirm.txt')) else ''
     m=re.search(r'(?is)(what (it|is) need(s|ed)[^\n]*\n)(.*?)(\n#|\Z)',notes)
